@@ -576,4 +576,10 @@ def run(repo, tier):
     r.info("R1.1", f"boxes evaluated {total['boxes']}, proved {total['proved']} (single points {total['points']}); {len(tasks)} (type, function, line) tasks, {jobs} worker process(es)")
     for k, why in UNDECIDED.items():
         r.info("R1.1", f"not decided: {k} - {why}")
+    # R1.4: complex log / log1p are not decided above; their accuracy rests on the compensated kernels of algorithms.py
+    # (2Sum, Fast2Sum, cascaded sums, Veltkamp split, Dekker square) being the proven error-free forms - shared with C10
+    from rules import C10
+    sub = C10.run(repo, tier)
+    r.absorb(sub, {"R10.1": "R1.4", "R10.2": "R1.4"}, "the compensated-arithmetic kernels inside algorithms.py (used by complex log, log1p and the asin/acos kernel) are dataflow-equal to the proven error-free forms, with the proven splitter constants (shared clause with C10)",
+             floor=6, select=lambda o: "algorithms.py" in o["key"])
     return r
